@@ -30,6 +30,12 @@ GAS = ['C', 'CC', 'CCC', 'CCCC', 'CC(C)C', 'CC(C)(C)C', 'CCCCCC', 'CC(C)CC', 'C=
        'CC(C)O', 'COC', 'CCOCC', 'C=O', 'CC=O', 'CC(C)=O', 'CC(=O)O', 'CC(=O)OC', 'OCCO', 'OCC(O)CO', 'C1CCOC1', 'C1CO1',
        'Oc1ccccc1', '[CH3]', 'C[CH2]', 'CC[CH2]', 'C[CH]C', '[CH2]C=C', 'CN', 'CCN', 'CNC', 'CC#N', 'C=CC(=O)O', 'CC(C)C(C)C',
        'C1CCC2CCCCC2C1', 'c1ccoc1', 'OO', 'COO']
+# structurally special inputs, always included: a remapped group met before a native occurrence of its
+# target (COCC, CC=CCC), Kekule rings that are one double bond short of benzene, stereo double bonds with no
+# hydrogen on either end, an aromatic ring next to a ring of another size, hydrogens written in brackets
+KEY = ['COCC', 'CC=CCC', 'C1CC=CC=C1', 'C1=CCC=CC1', r'CC/C(C)=C(C)/CC', r'CC/C(C)=C(/C)CC', 'c1ccccc1C1CC1',
+       'c1ccc2c(c1)CCC2', 'C1OC1c1ccccc1', 'CC[C@H](C)O', '[CH3][CH2]O']
+GAS = GAS + KEY
 PT = ['C([Pt])C', 'C([Pt])([Pt])C', 'C([Pt])([Pt])([Pt])C', 'CC', 'CCC', 'CO', 'CCO', 'OC([Pt])C', 'CC([Pt])O', 'OCC([Pt])O',
       'C(=O)([Pt])O', 'C(=O)([Pt])C', 'C([Pt])([Pt])O', 'C([Pt])C([Pt])', 'C([Pt])([Pt])C([Pt])([Pt])', 'O([Pt])C', 'O([Pt])CC',
       'C([Pt])=O', 'OC([Pt])([Pt])C', 'OCCO', 'OC(C)CO', 'C([Pt])([Pt])=O', '[Pt]C([Pt])([Pt])[Pt]', 'OC([Pt])C([Pt])O',
@@ -148,7 +154,7 @@ def run(ctx):
             mols = SYNTH_MOLS
         else:
             fam = FAMILY[n]
-            mols = fam if thorough else fam[ctx.seed % 3::3][:14] + fam[:4]
+            mols = fam if thorough else fam[ctx.seed % 3::3][:14] + fam[:4] + (KEY if fam is GAS else [])
             mols = list(dict.fromkeys(mols)) + OUTSIDE[:(len(OUTSIDE) if thorough else 3)]
         for smi in mols:
             cases.append((si, smi, smi, smi))
